@@ -346,7 +346,8 @@ Proof.
   destruct (parse_unit_name r s) as [|[p u] l]; [discriminate|].
   destruct (String.eqb p "").
   - destruct (r_units r !! u) eqn:E2; [intros [= <-]; eauto | discriminate].
-  - unfold prefixed_def. destruct (r_prefixes r !! p) eqn:E3; [|discriminate].
+  - destruct (r_units r !! (p ++ u)) eqn:E5; [intros [= <-]; eauto|].
+    unfold prefixed_def. destruct (r_prefixes r !! p) eqn:E3; [|discriminate].
     destruct (r_units r !! u) as [ud|] eqn:E4; [|discriminate].
     destruct (negb (u_multiplicative ud)); [discriminate|].
     destruct (get_symbol r (p ++ u)); simpl; [|discriminate]. intros [= <-] _. simpl. eauto.
